@@ -1,6 +1,7 @@
 // C04 - AES key expansion equals FIPS-197 (enc schedule + equivalent-inverse-cipher dec schedule);
 //       AES-CBC equals SP 800-38A for all key sizes and families; dec inverts enc.
 #include "../common/aes_engine.hpp"
+#include "../common/periodic.hpp"
 
 using namespace ae::cbc;
 static std::vector<Ent> g_ents;
@@ -11,12 +12,13 @@ struct Case {
         uint64_t seed = 1, nblocks = 1;
         int inplace = 0, pl_in = 0, pl_out = 0, pl_key = 0;
         uint32_t sh_in = 0, sh_out = 0;
+        int giant = 0; // 1: CBC decrypt of more than 2^32 bytes (periodic read-only input, aliasing sink as output)
 };
 static J to_json(const Case &c)
 {
         J j = J::obj();
         j.set("ent", c.ent).set("seed", (unsigned long long) c.seed).set("nblocks", (unsigned long long) c.nblocks).set("inplace", c.inplace);
-        j.set("pl_in", c.pl_in).set("pl_out", c.pl_out).set("pl_key", c.pl_key).set("sh_in", c.sh_in).set("sh_out", c.sh_out);
+        j.set("pl_in", c.pl_in).set("pl_out", c.pl_out).set("pl_key", c.pl_key).set("sh_in", c.sh_in).set("sh_out", c.sh_out).set("giant", c.giant);
         return j;
 }
 static Case from_json(const J &j)
@@ -25,7 +27,7 @@ static Case from_json(const J &j)
         c.ent = j.at("ent").s;
         c.seed = j.unum("seed", 1); c.nblocks = j.unum("nblocks", 1); c.inplace = j.num("inplace", 0);
         c.pl_in = j.num("pl_in", 0); c.pl_out = j.num("pl_out", 0); c.pl_key = j.num("pl_key", 0);
-        c.sh_in = j.unum("sh_in", 0); c.sh_out = j.unum("sh_out", 0);
+        c.sh_in = j.unum("sh_in", 0); c.sh_out = j.unum("sh_out", 0); c.giant = j.num("giant", 0);
         return c;
 }
 
@@ -74,6 +76,46 @@ static bool run(const Case &c, pbt::Ctx &ctx)
                 }
                 ctx.nontrivial = true;
                 ctx.nt_key = c.ent + "|" + std::to_string(c.seed);
+                return true;
+        }
+        if (c.giant) {
+                // decryption is local (P_j = D(C_j) ^ C_{j-1}): the last MiB of a > 4 GiB call is checked against the reference,
+                // which needs only the last MiB (+ one block) of the input
+                if (e->op != OP_DEC || c.nblocks < (1ull << 20)) { ctx.label("shrink artefact"); return true; }
+                uint64_t len = 16 * c.nblocks;
+                if (len + 4096 > periodic::SPAN) return true;
+                std::vector<uint8_t> iv = pbt::expandv(c.seed + 1, 16);
+                uint8_t *keys = A.alloc("keys", ds.size(), 16, guard::END);
+                memcpy(keys, ds.data(), ds.size());
+                A.set_readonly(keys);
+                uint8_t *ivb = A.alloc("iv", 16, 16, guard::END);
+                memcpy(ivb, iv.data(), 16);
+                A.set_readonly(ivb);
+                uint8_t *in = periodic::stream(), *out = periodic::sink();
+                bool ok = guard::guarded_call(fi, [&] {
+                        if (e->api) rc = ((cbc_ifn) e->fn)(in, ivb, keys, out, len);
+                        else ((cbc_dec_fn) e->fn)(in, ivb, keys, out, len);
+                });
+                if (!ok) {
+                        A.describe(fi);
+                        return !failx("fault", "fault (blocks " + std::to_string(c.nblocks) + "): " + fi.where);
+                }
+                if (rc) return !failx("rc", "valid call returned " + std::to_string(rc));
+                uint64_t first = len - periodic::PERIOD;
+                for (uint64_t o = first; o < len; o += 16) {
+                        uint8_t d[16];
+                        ra.decrypt(in + o, d);
+                        const uint8_t *prev = in + o - 16;
+                        for (int k = 0; k < 16; k++) d[k] ^= prev[k];
+                        if (memcmp(d, out + o, 16)) {
+                                if (failx("output-giant", "output differs from SP 800-38A reference in block " + std::to_string(o / 16) + " of " + std::to_string(c.nblocks) +
+                                                                  " (a call of more than 2^32 bytes)"))
+                                        return false;
+                                break;
+                        }
+                }
+                ctx.label("giant decrypt (> 2^32 bytes)");
+                ctx.nontrivial = true;
                 return true;
         }
         uint64_t len = 16 * c.nblocks;
@@ -135,6 +177,20 @@ int main(int argc, char **argv)
         P.gen = [](pbt::Ctx &ctx) {
                 using namespace pbt;
                 Case c;
+                static long case_no = 0;
+                if (case_no < ctx.optnum("giants", 0)) {
+                        std::vector<size_t> dec;
+                        for (size_t i = 0; i < g_ents.size(); i++)
+                                if (g_ents[i].runnable && g_ents[i].op == OP_DEC) dec.push_back(i);
+                        if (!dec.empty()) {
+                                c.ent = g_ents[dec[(size_t) (ctx.optnum("worker", 0) + case_no * ctx.optnum("workers", 1)) % dec.size()]].label();
+                                case_no++;
+                                c.giant = 1;
+                                c.seed = rng64(1, UINT64_MAX - 8);
+                                c.nblocks = (1ull << 28) + (coin(1, 3) ? pick<uint64_t>({ 1, 7, 8, 15, 16, 17 }) : rng<uint64_t>(1, 70000));
+                                return c;
+                        }
+                }
                 std::vector<size_t> idx;
                 for (size_t i = 0; i < g_ents.size(); i++)
                         if (g_ents[i].runnable) idx.push_back(i);
